@@ -285,6 +285,15 @@ def ids_statement(ra, dec, depths):
             one = h.lookup_id(float(ra[k]), float(dec[k]))
             if np.size(one) != 1 or int(np.ravel(one)[0]) != int(ids[k]):
                 return "depth %d: scalar call gives %r, array call %d" % (d, one, ids[k])
+        if d in (0, 5, 12, 20):
+            # the same positions in other memory layouts: byte-swapped, strided, as a list
+            big = np.zeros(ra.size * 2)
+            big[::2] = ra
+            for tag, a, b in ((">f8", ra.astype(">f8"), dec.astype(">f8")), ("strided", big[::2], dec),
+                              ("mixed", ra, dec.astype(">f8")), ("list", list(ra[:5]), list(dec[:5]))):
+                other = h.lookup_id(a, b)
+                if not np.array_equal(other, ids[:len(other)]):
+                    return "depth %d: %s input gives different ids" % (d, tag)
     return True
 
 
